@@ -30,6 +30,25 @@ fn main() {
             if r.is_err() { println!("DEFECT MANIFESTS: panic on 21-digit shard number"); std::process::exit(1); }
             println!("handled: {:?}", r.unwrap());
         }
+        // C08: different statements must never share a server-side prepared statement
+        "f5" => {
+            use bytes::{BufMut, BytesMut};
+            use pgcat::messages::Parse;
+            fn parse_msg(name: &str, query: &str, types: &[i32]) -> BytesMut {
+                let mut b = BytesMut::new();
+                b.put_u8(b'P');
+                b.put_i32((4 + name.len() + 1 + query.len() + 1 + 2 + 4 * types.len()) as i32);
+                b.put_slice(name.as_bytes()); b.put_u8(0);
+                b.put_slice(query.as_bytes()); b.put_u8(0);
+                b.put_i16(types.len() as i16);
+                for t in types { b.put_i32(*t); }
+                b
+            }
+            let a = Parse::try_from(&parse_msg("a", "SELECT 1", &[20])).unwrap();
+            let b = Parse::try_from(&parse_msg("b", "SELECT 112", &[])).unwrap();
+            println!("hash(SELECT 1 / [int8]) = {:x}   hash(SELECT 112 / []) = {:x}", a.get_hash(), b.get_hash());
+            if a.get_hash() == b.get_hash() { println!("DEFECT MANIFESTS: two different statements share one cache key (and so one server-side statement)"); std::process::exit(1); }
+        }
         _ => { eprintln!("unknown demo"); std::process::exit(2); }
     }
     println!("ok");
